@@ -102,6 +102,13 @@ let handle line = match parse line with
   | [A "mul"; I n] -> fin (!cur, OkC (c_mul !cur (nat_of_int n)))
   | [A "imul"; I n] -> fin (c_imul !cur (nat_of_int n), OkU)
   | [A "fold"; r] -> if has_neg r then fin (!cur, Err ValueError) else fin (fold !cur (region_of r))
+  | [A "foldx"; r] -> if has_neg r then fin (!cur, Err ValueError) else fin (fold_x true !cur (region_of r))
+  | [A "straightenx"; r] ->
+    if has_neg r then fin (!cur, Err ValueError) else
+    (match straighten_x true !cur (region_of r) with
+     | (c, SOk (r1, net, sh)) -> cur := c;
+       "S " ^ show (vregion r1) ^ " " ^ string_of_int (int_of_nat net) ^ " " ^ show (vregion sh) ^ " | " ^ show (vcirc c)
+     | (c, SErr e) -> fin (c, Err e))
   | [A "straighten"; r] ->
     if has_neg r then fin (!cur, Err ValueError) else
     (match straighten !cur (region_of r) with
